@@ -28,7 +28,7 @@ ID = "C19"
 RULE = ("(a) cases with at least one mutable container in the input; non-trivial = the parse converted something (result differs from input) or failed; "
         "(b) default value specs with nested mutable containers x declaration form x base; non-trivial = a nested mutable default; "
         "(c) histories of 1..8 parses followed by a probe; non-trivial = the history contains a failed parse or a parse with other options before the probe. "
-        "distinct = hash of the case (d) every (target, input) of the fixed program parsed in fresh interpreters in 3 (thorough: 5) different orders; non-trivial by construction (each input is preceded by different parses in each order). Part (a) also re-parses a fresh copy of the input after editing the first result in place.")
+        "distinct = hash of the case (d) every (target, input) of the fixed program parsed in fresh interpreters in 3 (thorough: 5) different orders; non-trivial by construction (each input is preceded by different parses in each order). Part (a) also re-parses a fresh copy of the input after editing the first result in place. (e) one module-level function declared twice, every ordered pair of six option sets x seven calls; non-trivial = the two option sets differ.")
 ASSUMPTIONS = [
     "aliasing is not mutation: a result may share an object with the input (same-type short-cut of bare types); only changes of the caller's objects are "
     "reported - except for parameterised List[T]/Set[T]/Dict[K,V] positions, whose result containers the args parsers build fresh (anchored mechanism): "
@@ -652,7 +652,7 @@ def campaign(ctx):
         else:
             if r.get("nt"):
                 ctx.nt(case)
-                ctx.sample("c", case)
+                ctx.sample(case["part"], case)
         ctx.fail_all(r["fails"], case)
 
     # (b) is a finite product: enumerate it completely (shard 0)
